@@ -28,14 +28,15 @@ import (
 // a program that descends one level per input "1", stays on "2", and whose nodes load a value of growing size
 func crashProgram() *Program {
 	p := &Program{Name: "crash", Root: "root", FlagCount: 2, Nodes: map[string][]Instr{}, Templates: map[string]string{}, Syms: map[string][]SymResult{}}
-	names := []string{"root", "aa", "bb", "cc", "dd", "ee", "ff", "gg"}
+	// a chain of 24 nodes: a session can be more than 16 levels deep (more scopes and symbols than small container limits)
+	names := []string{"root", "aa", "bb", "cc", "dd", "ee", "ff", "gg", "hh", "ii", "jj", "kk", "ll", "mm", "nn", "oo", "pp", "qq", "rr", "ss", "tt", "uu", "vv", "ww"}
 	for i, n := range names {
 		next := names[(i+1)%len(names)]
 		if next == "root" {
 			next = "."
 		}
 		sym := "v" + n
-		p.Syms[sym] = []SymResult{{Id: string(rune('a' + i)), Len: 40 * (i + 1) * (i + 1), Set: []int{}, Reset: []int{}}}
+		p.Syms[sym] = []SymResult{{Id: string(rune('a' + i)), Len: 40 * (i%8 + 1) * (i%8 + 1), Set: []int{}, Reset: []int{}}}
 		// "flip" is re-run on every visit and returns 40 bytes made of the client's input: staying on a node with
 		// input 2 or 5 gives consecutive session states whose stored records have EXACTLY the same length
 		p.Nodes[n] = []Instr{{Op: "LOAD", A: sym, N: 0}, {Op: "LOAD", A: "flip", N: 0}, {Op: "RELOAD", A: "flip"}, {Op: "HALT"},
